@@ -247,7 +247,7 @@ impl Request {
 
         let (method, without_method) = boxed_split_without_method.unwrap();
         let supported_methods = Request::method_list();
-        if !supported_methods.contains(&method.to_uppercase().to_string()) {
+        if !supported_methods.contains(&method.to_ascii_uppercase()) {
             return Err(Request::_ERROR_UNABLE_TO_PARSE_METHOD_AND_REQUEST_URI_AND_HTTP_VERSION.to_string())
         }
 
@@ -260,7 +260,7 @@ impl Request {
 
 
         let supported_http_versions = HTTP::version_list();
-        if !supported_http_versions.contains(&http_version.to_uppercase().to_string()) {
+        if !supported_http_versions.contains(&http_version.to_ascii_uppercase()) {
             return Err(Request::_ERROR_UNABLE_TO_PARSE_METHOD_AND_REQUEST_URI_AND_HTTP_VERSION.to_string())
         }
 
